@@ -6,16 +6,18 @@
 (*  - JSON values are tagged records, so that TLC never has to compare     *)
 (*    values of different TLA+ types:                                      *)
 (*      [k |-> "null"]               [k |-> "bool", b |-> TRUE]            *)
-(*      [k |-> "num", m |-> 15, e |-> -1]      (the decimal  m * 10^e)     *)
+(*      [k |-> "num", neg |-> FALSE, ds |-> <<1, 5>>, e |-> -1]            *)
+(*                               (the decimal  +-ds * 10^e, any size)      *)
 (*      [k |-> "str", s |-> <<97>>]                                        *)
 (*      [k |-> "arr", xs |-> << v1, v2 >>]                                 *)
 (*      [k |-> "obj", ms |-> << [n |-> <<97>>, v |-> v1], ... >>]          *)
 (*    Object members are a SEQUENCE: "the mapping's own order".            *)
 (*  - Nothing (RFC 9535 2.4.1) is [k |-> "nothing"].                       *)
 (*  - A node is [loc |-> Seq([i: Nat] \cup [n: Text]), v |-> Value].        *)
-(*  - Numbers are normalised decimals: m is not divisible by 10 unless     *)
-(*    m = 0 (then e = 0).  |m| < 10^9 so that all arithmetic fits TLC's    *)
-(*    32-bit integers.                                                     *)
+(*  - Numbers are normalised decimals of arbitrary size: ds is the digit    *)
+(*    sequence of the significand without leading or trailing zeros (<<>>  *)
+(*    for zero, then neg = FALSE and e = 0).  Equality and order work on   *)
+(*    digit sequences, so nothing depends on TLC's 32-bit integers.        *)
 (***************************************************************************)
 EXTENDS Integers, Sequences, FiniteSets, SequencesExt, TLC
 
@@ -37,28 +39,48 @@ Pow10(n) == IF n <= 0 THEN 1 ELSE 10 * Pow10(n - 1)
 RECURSIVE NDigits(_)
 NDigits(n) == IF n < 10 THEN 1 ELSE 1 + NDigits(n \div 10)   \* n >= 0
 
-RECURSIVE Norm(_, _)
-Norm(m, e) == IF m = 0 THEN <<0, 0>>
-              ELSE IF m % 10 = 0 THEN Norm(m \div 10, e + 1)
-              ELSE <<m, e>>
+\* digits of a natural number (most significant first); <<>> for 0
+RECURSIVE NatDs(_)
+NatDs(n) == IF n = 0 THEN <<>> ELSE Append(NatDs(n \div 10), n % 10)
+RECURSIVE DropLeadZ(_)
+DropLeadZ(ds) == IF Len(ds) > 0 /\ ds[1] = 0 THEN DropLeadZ(Tail(ds)) ELSE ds
+RECURSIVE DropTrailZ(_)
+DropTrailZ(ds) == IF Len(ds) > 0 /\ ds[Len(ds)] = 0 THEN DropTrailZ(SubSeq(ds, 1, Len(ds) - 1)) ELSE ds
 
-Num(m, e) == LET ne == Norm(m, e) IN [k |-> "num", m |-> ne[1], e |-> ne[2]]
+\* the number  +-(digits) * 10^e, normalised
+NumDs(neg, digits, e) ==
+    LET lead == DropLeadZ(digits)
+        sig  == DropTrailZ(lead)
+    IN  IF sig = <<>> THEN [k |-> "num", neg |-> FALSE, ds |-> <<>>, e |-> 0]
+        ELSE [k |-> "num", neg |-> neg, ds |-> sig, e |-> e + (Len(lead) - Len(sig))]
+\* from a TLC integer significand (used by the MC_* instances and for lengths / counts)
+Num(m, e) == NumDs(m < 0, NatDs(Abs(m)), e)
 IntV(i)   == Num(i, 0)
 
-IsNormNum(v) == v.k = "num" /\ (v.m = 0 => v.e = 0) /\ (v.m # 0 => v.m % 10 # 0)
+IsNormNum(v) == /\ v.k = "num"
+                /\ (v.ds = <<>> => (v.e = 0 /\ ~v.neg))
+                /\ (v.ds # <<>> => (v.ds[1] # 0 /\ v.ds[Len(v.ds)] # 0))
+                /\ \A i \in 1..Len(v.ds) : v.ds[i] \in 0..9
 
 (* ---------------- numbers: order on normalised decimals ---------------- *)
-Sign(m) == IF m > 0 THEN 1 ELSE IF m < 0 THEN -1 ELSE 0
-Mag(a)  == NDigits(Abs(a.m)) + a.e          \* order of magnitude, a.m # 0
+IsZero(a) == a.ds = <<>>
+Sign(a) == IF IsZero(a) THEN 0 ELSE IF a.neg THEN -1 ELSE 1
+Mag(a)  == Len(a.ds) + a.e                    \* position of the leading digit, a # 0
 
-AbsLt(a, b) ==   \* |a| < |b| for a.m # 0, b.m # 0
-    IF Mag(a) # Mag(b) THEN Mag(a) < Mag(b)
-    ELSE LET lo == Min2(a.e, b.e)
-         IN  Abs(a.m) * Pow10(a.e - lo) < Abs(b.m) * Pow10(b.e - lo)
+\* lexicographic order on significands without trailing zeros: a proper prefix is smaller
+RECURSIVE DsLtFrom(_, _, _)
+DsLtFrom(x, y, i) ==
+    IF i > Len(y) THEN FALSE
+    ELSE IF i > Len(x) THEN TRUE
+    ELSE IF x[i] # y[i] THEN x[i] < y[i]
+    ELSE DsLtFrom(x, y, i + 1)
 
-NumEq(a, b) == a.m = b.m /\ a.e = b.e
+AbsLt(a, b) ==   \* |a| < |b| for a # 0, b # 0
+    IF Mag(a) # Mag(b) THEN Mag(a) < Mag(b) ELSE DsLtFrom(a.ds, b.ds, 1)
+
+NumEq(a, b) == a.neg = b.neg /\ a.ds = b.ds /\ a.e = b.e
 NumLt(a, b) ==
-    LET sa == Sign(a.m)  sb == Sign(b.m)
+    LET sa == Sign(a)  sb == Sign(b)
     IN  IF sa # sb THEN sa < sb
         ELSE IF sa = 0 THEN FALSE
         ELSE IF sa > 0 THEN AbsLt(a, b)
